@@ -21,7 +21,7 @@ TEXT = {
  "C08": ("differential decoding: an independent RFC 8536 writer and decoder (Must / MustFail / Unspec) against from_tz_data on generated v1/v2/v3 files, all 894 distinct vendored tzdata files and every single-field corruption of the named kinds; designation tables longer than 256 octets, 256 local time types", "trusts M-tzif (writer and decoder are checked against each other on every generated file; disagreement = inconclusive)"),
  "C09": ("recursive-descent recogniser + denotation written from the grammar against three entry points (settings, v2 footer, v3 footer): grammar cross product, every single-character edit of sentences, every number replaced by congruent / oversized values, sentences wrapped in non-ASCII white space, thorough: all strings of length <= 6 over a 14-letter alphabet", "trusts M-posix; in-range numbers written with more than 3 digits, ASCII whitespace and non-ASCII letters next to an unquoted name are left unspecified"),
  "C20": ("tzset(3) resolution model over a virtual file system with a recording reader: exact sequence of paths requested and result class, exhaustively over 56 value shapes x 9 directory lists x all assignments of five file states (absent, valid, garbage, empty, structurally well-formed but not a valid zone); parse_local shorthand", "trusts M-resolve; the real file system is not involved in this check"),
- "C10": ("record-and-replay differential: tz-rs' answers for every transition -1/0/+1, random and far-future instants and local times around every transition since 1970 are logged and replayed offline against CPython zoneinfo and glibc reading the same vendored files (every one of the 1243 paths is loaded and compared at the first use of each local time type; deep events for 66+ files in the quick tier, all paths in the thorough tier; the footer rule's future transitions located by bisection), plus TZ descriptions against glibc's parser", "trusts zoneinfo and glibc 2.36 as oracles, with the exclusions listed in the evidence assumptions"),
+ "C10": ("record-and-replay differential: tz-rs' answers for every transition -1/0/+1, random and far-future instants and local times around every transition of every table (19th century included) are logged and replayed offline against CPython zoneinfo and glibc reading the same vendored files (all 1243 paths in both tiers, the thorough tier with ten times the random instants and twenty times the rule-governed years; the footer rule's future transitions located by bisection), plus TZ descriptions against glibc's parser", "trusts zoneinfo and glibc 2.36 as oracles, with the exclusions listed in the evidence assumptions"),
  "C11": ("brute-force 400-year definition against the constructor on all 1 324 801 day-notation pairs x breakpoints of d (thorough: all 105 breakpoints, each realised twice and at the extreme translations of the two UTC-scale day times, so that 'acceptance depends on d only' is observed), error variant = first violated condition", "trusts M-rule day tables (closed form validated against walking the month over the cycle)"),
  "C12": ("probe zones pin the hidden UTC<->leap-count conversions: forward switch instant, instant reported by the search, their agreement, monotonicity; tables of both signs incl. the real 27-record one; probe zones with both offsets away from UTC, transitions closer to a record than the offsets, searches at the edges of the gap judged by the C05/C06 search oracle; probe zones with the last record and the transition within a few seconds of i64::MAX (records that are never reached)", "trusts M-leap (f defined as max{L: g(L)<=u}, brute-force validated)"),
  "C13": ("clause-by-clause validator against both constructors on valid zones, every single-defect perturbation at first/middle/last position, extremes, rule switches placed on the last transition at a leap record, near-equal designations, one to three arbitrary edits of valid zones, and random malformed tuples", "trusts the A.3 validator; error variants compared on single-defect inputs only"),
